@@ -3442,6 +3442,9 @@ func (d *Document) nextDocumentRelationshipID() string {
 func (d *Document) serializeStyles() error {
 	Debugf("开始序列化样式")
 
+	// 表格通过 CreateCustomTableStyle/ApplyTableStyle 引用的自定义样式ID必须有定义
+	d.defineReferencedTableStyles()
+
 	// 如果在克隆文档时已经保留了完整的 styles.xml（含 docDefaults 等信息），
 	// 这里直接跳过重新生成，避免丢失模板原有的默认段落/字符设置。
 	if existing, ok := d.parts["word/styles.xml"]; ok && len(existing) > 0 && !d.stylesGenerated {
@@ -3497,6 +3500,42 @@ func (d *Document) serializeStyles() error {
 
 	Debugf("样式序列化完成")
 	return nil
+}
+
+// defineReferencedTableStyles 为表格引用、但样式管理器里还没有的表格样式ID登记一个定义。
+// Table.CreateCustomTableStyle 只能把样式ID写到表格上（表格不认识文档的样式管理器），
+// 样式本身在这里补上：一个基于普通表格的自定义表格样式，边框和底纹仍然由表格自身的属性给出。
+func (d *Document) defineReferencedTableStyles() {
+	if d.styleManager == nil || d.Body == nil {
+		return
+	}
+	var visit func(table *Table)
+	visit = func(table *Table) {
+		if table == nil {
+			return
+		}
+		if table.Properties != nil && table.Properties.TableStyle != nil {
+			if styleID := table.Properties.TableStyle.Val; styleID != "" && !d.styleManager.StyleExists(styleID) {
+				base := ""
+				if d.styleManager.StyleExists("TableNormal") {
+					base = "TableNormal"
+				}
+				d.styleManager.CreateCustomStyle(styleID, styleID, style.StyleTypeTable, base)
+			}
+		}
+		for i := range table.Rows {
+			for j := range table.Rows[i].Cells {
+				for k := range table.Rows[i].Cells[j].Tables {
+					visit(&table.Rows[i].Cells[j].Tables[k])
+				}
+			}
+		}
+	}
+	for _, element := range d.Body.Elements {
+		if table, ok := element.(*Table); ok {
+			visit(table)
+		}
+	}
 }
 
 // appendMissingStyles 用于来自已打开文档或模板的 styles.xml：原文保持不变，
